@@ -455,6 +455,28 @@ def _shape_guard(e, vals):
             raise HarnessError(f'the input shape of the contract lacks attribute {attr!r}, which {c.__name__}.__init__ sets')
 
 
+def _stub_guard(e):
+    """an exception raised by (or about) a stub class of a contract -- the code now uses the stubbed object in a way the stub does not
+    know: the contract is out of date (HarnessError), not a verdict about the code"""
+    import re
+    import sys
+    tb = e.__traceback__
+    last = None
+    while tb is not None:
+        last = tb
+        tb = tb.tb_next
+    if last is not None and os.sep + 'contracts' + os.sep in last.tb_frame.f_code.co_filename and isinstance(e, (AttributeError, TypeError, NameError, KeyError, IndexError)) \
+            and last.tb_frame.f_code.co_name not in ('<module>',) and not last.tb_frame.f_code.co_name.startswith(('post_', 'requires', 'raises', 'inputs')):
+        raise HarnessError(f'a stub of the contract failed ({type(e).__name__}: {e}): the code uses the stubbed object in a way the stub does not model')
+    if isinstance(e, (AttributeError, TypeError)):
+        m = re.search(r"'(\w+)' object has no attribute|^(\w+)\.\w+\(\) (?:got|takes|missing)", str(e))
+        name = (m.group(1) or m.group(2)) if m else None
+        if name:
+            for mn, mod in list(sys.modules.items()):
+                if mn.startswith('contracts.') and mod is not None and isinstance(getattr(mod, name, None), type) and getattr(mod, name).__module__ == mn:
+                    raise HarnessError(f'a stub of the contract does not model this use ({type(e).__name__}: {e})')
+
+
 class HarnessError(Exception):
     """the native harness itself cannot run (e.g. the loop a step contract names is not in the source any more): never a verdict"""
 
@@ -629,12 +651,13 @@ def _replay(ci: ContractInfo, ob_kind: str, ob_label: str, model: dict):
             info.update(confirmed=None, reason='replay harness error: ' + str(e))
             return info
         except Exception as e:   # the real code raised
-            if isinstance(e, AttributeError):
-                try:
+            try:
+                if isinstance(e, AttributeError):
                     _shape_guard(e, vals)
-                except HarnessError as h:
-                    info.update(confirmed=None, reason='replay harness error: ' + str(h))
-                    return info
+                _stub_guard(e)
+            except HarnessError as h:
+                info.update(confirmed=None, reason='replay harness error: ' + str(h))
+                return info
             exc = e
         info['observed'] = {'raised': type(exc).__name__ + ': ' + str(exc)[:200]} if exc is not None else {'result': _show(result)}
         table = _call_native(ci, 'raises', vals_for(ci, 'raises', old)) if ci.has('raises') else {}
@@ -720,8 +743,10 @@ def native_check(ci: ContractInfo, g: ConcreteFactory):
         raise
     except AttributeError as e:
         _shape_guard(e, vals)
+        _stub_guard(e)
         exc = e
     except Exception as e:
+        _stub_guard(e)
         exc = e
     failed = []
     table = _call_native(ci, 'raises', old) if ci.has('raises') else {}
